@@ -9,10 +9,10 @@ VARIABLE i
 Init == i \in 1..Len(Recs)
 Next == UNCHANGED i
 
-GraphOf(r) == [n |-> r.g.n,
+GraphOf(r) == Prep([n |-> r.g.n,
                hyp |-> {<<e[1], e[2]>> : e \in Rng(r.g.hyp)},
                hypo |-> {<<e[1], e[2]>> : e \in Rng(r.g.hypo)},
-               pos |-> r.g.pos]
+               pos |-> r.g.pos])
 
 PathsOK(G, o) == \A t \in Rng(o.paths) :
    /\ t[3] = "ok"
